@@ -1,7 +1,7 @@
 /-
   C05 / C06 / C08 at the granularity of single receive operations: the `ObservableVector` lives on one thread, the
   subscriber streams on others, and between any two receive operations of one `poll_next` anything may happen.
-  `Lemmas/StepInv` shows that the invariant `SInv` holds along every such interleaving (`sinv_run`); here is what a
+  `Lemmas/StepInv` shows that the invariant `StInv` holds along every such interleaving (`sinv_run`); here is what a
   `poll_next` hands out when it finally returns (`micro_return`) and the property statements drawn from it.
 -/
 import EyeballVerif.Lemmas.StepInv
@@ -11,7 +11,7 @@ namespace EV
     and other events (updates, transactions, subscriptions, drops) in any order -/
 def SReach {α} (s : SOV α) : Prop := ∃ (c : Nat) (evs : List (SEv α)), c ≤ 2 ^ 64 ∧ s = evs.foldl SOV.step (SOV.init c)
 
-theorem sreach_inv {α} {s : SOV α} (h : SReach s) : SInv s := by
+theorem sreach_inv {α} {s : SOV α} (h : SReach s) : StInv s := by
   obtain ⟨c, evs, hc, rfl⟩ := h
   exact sinv_run c hc evs
 
@@ -26,7 +26,7 @@ theorem sreach_step {α} {s : SOV α} (h : SReach s) (e : SEv α) : SReach (s.st
     * one diff (plain stream): strictly applicable to the consumer's replica;
     * a batch (batched stream): non-empty, and strictly applicable as a whole to what the consumer had before the poll;
     * a `Reset` (after lagging): it carries the contents current at the moment `poll_next` returns, and nothing is owed. -/
-theorem micro_return {α} (s s' : SOV α) (i : Nat) (k : RK) (it : Item α) (hi : SInv s)
+theorem micro_return {α} (s s' : SOV α) (i : Nat) (k : RK) (it : Item α) (hi : StInv s)
     (h : s.micro i = some (k, some it, s')) :
     ∃ r r', s.ov.subs[i]? = some r ∧ r.alive = true ∧ s'.ov.subs[i]? = some r' ∧ s'.ph i = .idle ∧
       s'.ov.vals = s.ov.vals ∧ s'.ov.log = s.ov.log ∧
@@ -35,7 +35,7 @@ theorem micro_return {α} (s s' : SOV α) (i : Nat) (k : RK) (it : Item α) (hi 
        (∃ d sh sh', it = .one d ∧ s.ph i = .idle ∧ r.batched = false ∧ r.replica = some sh ∧
           applyAll [d] sh = some sh' ∧ r'.replica = some sh') ∨
        (∃ acc shown sh sh', it = .batch acc ∧ s.ph i = .drain acc shown ∧ acc ≠ [] ∧ shown = some sh ∧
-          applyAll acc sh = some sh' ∧ r'.replica = some sh') ∨
+          applyAll acc sh = some sh' ∧ r'.replica = some sh' ∧ ∃ a, a ≤ r.next ∧ acc = skipped s.ov.log a r.next) ∨
        (∃ m, s.ph i = .lag (some m) ∧ (it = .one (.reset m.state) ∨ it = .batch [.reset m.state]) ∧
           m.state = s.ov.vals ∧ r'.replica = some s.ov.vals ∧ r'.next = s.ov.log.length ∧ r'.rest = [])) := by
   unfold SOV.micro at h
@@ -100,16 +100,16 @@ theorem micro_return {α} (s s' : SOV α) (i : Nat) (k : RK) (it : Item α) (hi 
             refine ⟨r, _, rfl, ha, (hput _ _).1, (hput _ _).2.1, (hput _ _).2.2.1, (hput _ _).2.2.2, Or.inr (Or.inl ⟨rfl, rfl, by simpa using hc, by rw [g3, hv], rfl⟩)⟩
       | drain acc shown =>
         simp only [hp] at h hph
-        obtain ⟨hb, hacc, sh, rep0, hsh, hrep0, happ⟩ := hph
+        obtain ⟨hb, hacc, ⟨sh, rep0, hsh, hrep0, happ⟩, hwhole⟩ := hph
         rcases hcases with ⟨m, ht, hm, hlt, hnl⟩ | ⟨ht, hl⟩ | ⟨ht, hc, hn⟩ | ⟨ht, hc, hn⟩
         · rw [ht] at h; simp at h
         · rw [ht] at h; simp at h
         · rw [ht] at h
           simp at h; obtain ⟨-, rfl, rfl⟩ := h
-          refine ⟨r, _, rfl, ha, (hput _ _).1, (hput _ _).2.1, (hput _ _).2.2.1, (hput _ _).2.2.2, Or.inr (Or.inr (Or.inr (Or.inl ⟨acc, shown, sh, rep0, rfl, rfl, hacc, hsh, happ, hrep0⟩)))⟩
+          refine ⟨r, _, rfl, ha, (hput _ _).1, (hput _ _).2.1, (hput _ _).2.2.1, (hput _ _).2.2.2, Or.inr (Or.inr (Or.inr (Or.inl ⟨acc, shown, sh, rep0, rfl, rfl, hacc, hsh, happ, hrep0, hwhole⟩)))⟩
         · rw [ht] at h
           simp at h; obtain ⟨-, rfl, rfl⟩ := h
-          refine ⟨r, _, rfl, ha, (hput _ _).1, (hput _ _).2.1, (hput _ _).2.2.1, (hput _ _).2.2.2, Or.inr (Or.inr (Or.inr (Or.inl ⟨acc, shown, sh, rep0, rfl, rfl, hacc, hsh, happ, hrep0⟩)))⟩
+          refine ⟨r, _, rfl, ha, (hput _ _).1, (hput _ _).2.1, (hput _ _).2.2.1, (hput _ _).2.2.2, Or.inr (Or.inr (Or.inr (Or.inl ⟨acc, shown, sh, rep0, rfl, rfl, hacc, hsh, happ, hrep0, hwhole⟩)))⟩
       | lag msg =>
         simp only [hp] at h hph
         have hr : r.rest = [] := by cases msg <;> exact hph.1
@@ -176,7 +176,7 @@ theorem c05s_delivered_applicable {α} {s s' : SOV α} (hr : SReach s) (i : Nat)
     · rw [hd] at e; cases e
     · rw [hd] at e; cases e
     · rw [hd] at e; cases e
-      refine ⟨hne, sh, sh', g2, g3, ?_⟩
+      refine ⟨hne, sh, sh', g2, g3.1, ?_⟩
       intro acc' shown' hp'
       rw [hp] at hp'; cases hp'; exact g1
     · rcases e with e | e
@@ -231,6 +231,28 @@ theorem c08s_end_final {α} {s s' : SOV α} (hr : SReach s) (i : Nat) (k : RK) (
   · cases e
   · rcases e with e | e <;> cases e
 
+
+/-- **C07 / C13, any interleaving: a batch consists of whole messages.** Whatever the writer does between the receive
+    operations of a `poll_next`, the batch a batched subscriber is handed is exactly the concatenation of the diffs of
+    consecutive log messages — and a committed transaction is ONE message (`c07_commit`) — so no state in the middle of
+    a transaction is ever observable, also from another thread. (A lagged receiver gets a lone `Reset` instead.) -/
+theorem c13s_batch_whole_messages {α} {s s' : SOV α} (hr : SReach s) (i : Nat) (k : RK) (ds : List (Diff α))
+    (h : s.micro i = some (k, some (.batch ds), s')) :
+    (∃ a b, a ≤ b ∧ b ≤ s.ov.log.length ∧ ds = ((s.ov.log.drop a).take (b - a)).flatMap (·.diffs)) ∨
+    ds = [.reset s'.ov.vals] := by
+  have hi := sreach_inv hr
+  obtain ⟨r, r', h1, ha, h2, _, hv, hl, hc⟩ := micro_return s s' i k (.batch ds) hi h
+  have hn := (hi.base.subs i r h1 ha).2.1
+  rcases hc with ⟨e, _⟩ | ⟨e, _⟩ | ⟨d, sh, sh', e, _⟩ | ⟨acc, shown, sh, sh', e, _, _, _, _, _, a, haa, hw⟩ | ⟨m, _, e, hm, _⟩
+  · cases e
+  · cases e
+  · cases e
+  · cases e
+    exact Or.inl ⟨a, r.next, haa, hn, hw⟩
+  · rcases e with e | e
+    · cases e
+    · cases e
+      right; rw [hv, ← hm]
 
 /-- the interleaved run of the witness below: capacity 1 (window 1), a batched receiver, one update queued; then the
     receive operations of ONE `poll_next` with three more updates in between -/
